@@ -430,10 +430,10 @@ Qed.
 (* ================================================================================== no imports on return *)
 
 Lemma flatten_loop_has_no_imports : forall rounds fuel fx libs fs fs',
-  flatten_loop rounds fuel fx libs fs = FOk fs' -> has_imports fuel fs' = FOk false.
+  flatten_loop rounds fuel fx libs fs = FOk fs' -> has_imports fx libs fuel fs' = FOk false.
 Proof.
   induction rounds as [|r IH]; intros fuel fx libs fs fs' H; cbn [flatten_loop] in H; [discriminate|].
-  destruct (has_imports fuel fs) as [b| | |] eqn:Eb; cbn [fbind] in H; try discriminate.
+  destruct (has_imports fx libs fuel fs) as [b| | |] eqn:Eb; cbn [fbind] in H; try discriminate.
   destruct b.
   - destruct (top_units_loop fuel fx libs 0 fs) as [fs1| | |]; cbn [fbind] in H; try discriminate.
     destruct (top_comps_loop fuel fx libs (List.length (f_comps fs1)) 0 fs1) as [fs2| | |]; cbn [fbind] in H; try discriminate.
@@ -441,11 +441,11 @@ Proof.
   - inversion H; subst. exact Eb.
 Qed.
 
-Lemma units_fold_false : forall fuel U l acc,
-  fold_left (fun (acc : fres bool) u => do b <- acc; if (b : bool) then FOk true else has_units_imports fuel U u) l acc = FOk false ->
-  acc = FOk false /\ forall u, In u l -> has_units_imports fuel U u = FOk false.
+Lemma units_fold_false : forall fx libs fuel U l acc,
+  fold_left (fun (acc : fres bool) u => do b <- acc; if (b : bool) then FOk true else has_units_imports fx libs fuel U u) l acc = FOk false ->
+  acc = FOk false /\ forall u, In u l -> has_units_imports fx libs fuel U u = FOk false.
 Proof.
-  intros fuel U l. induction l as [|u r IH]; intros acc H; cbn [fold_left] in H.
+  intros fx libs fuel U l. induction l as [|u r IH]; intros acc H; cbn [fold_left] in H.
   - split; [exact H | intros u []].
   - destruct (IH _ H) as [Hacc Hall].
     destruct acc as [b| | |]; cbn [fbind] in Hacc; try discriminate.
@@ -453,19 +453,21 @@ Proof.
     intros x [E|Hin]; [subst; exact Hacc | apply Hall; exact Hin].
 Qed.
 
-Lemma has_units_imports_false_local : forall fuel U u, has_units_imports fuel U u = FOk false -> u_imp u = None.
+Lemma has_units_imports_false_local : forall fx libs fuel U u, has_units_imports fx libs fuel U u = FOk false -> u_imp u = None.
 Proof.
-  intros [|f] U u H; cbn [has_units_imports] in H; [discriminate|].
-  destruct (u_imp u); [discriminate | reflexivity].
+  intros fx libs fuel U u H. unfold has_units_imports in H.
+  destruct (fx_cycle_guard fx && has_units_cycle libs U (u_name u)).
+  - destruct (u_imp u); [discriminate | reflexivity].
+  - destruct fuel as [|f]; cbn [has_units_imports_go] in H; [discriminate|]. destruct (u_imp u); [discriminate | reflexivity].
 Qed.
 
-Lemma has_imports_false : forall fuel fs, has_imports fuel fs = FOk false ->
+Lemma has_imports_false : forall fx libs fuel fs, has_imports fx libs fuel fs = FOk false ->
   (forall u, In u (f_units fs) -> u_imp u = None) /\ (forall c, In c (f_comps fs) -> comp_has_imports c = false).
 Proof.
-  intros fuel fs H. unfold has_imports in H.
+  intros fx libs fuel fs H. unfold has_imports in H.
   destruct (fold_left _ (f_units fs) (FOk false)) as [b| | |] eqn:E; cbn [fbind] in H; try discriminate.
   destruct b; [discriminate|]. assert (Hc : existsb comp_has_imports (f_comps fs) = false) by congruence. clear H. split.
-  - intros u Hin. destruct (units_fold_false _ _ _ _ E) as [_ Hall]. apply (has_units_imports_false_local _ _ _ (Hall _ Hin)).
+  - intros u Hin. destruct (units_fold_false _ _ _ _ _ _ E) as [_ Hall]. apply (has_units_imports_false_local _ _ _ _ _ (Hall _ Hin)).
   - intros c Hin. destruct (comp_has_imports c) eqn:Ec; [|reflexivity].
     assert (Hx : existsb comp_has_imports (f_comps fs) = true) by (apply existsb_exists; exists c; split; assumption).
     rewrite Hx in Hc. discriminate.
@@ -494,7 +496,7 @@ Proof.
   destruct (clone_model m {| nx := n0; wlog := [] |}) as [[flat st0]| | |]; cbn [fbind] in H; try discriminate.
   destruct (flatten_loop rounds fuel fx libs _) as [fs'| | |] eqn:E; cbn [fbind] in H; try discriminate.
   inversion H; subst m' st. cbn [m_units m_comps].
-  destruct (has_imports_false _ _ (flatten_loop_has_no_imports _ _ _ _ _ _ E)) as [Hu Hc].
+  destruct (has_imports_false _ _ _ _ (flatten_loop_has_no_imports _ _ _ _ _ _ E)) as [Hu Hc].
   split; [exact Hu|]. intros c Hin. apply comp_has_imports_false. apply Hc. exact Hin.
 Qed.
 
@@ -934,21 +936,28 @@ Qed.
 
 (* ================================================================================== units transfer *)
 
-Lemma meu_some : forall libs T home n l t, models_equivalent_units libs T home n l = FOk (Some t) ->
+Lemma ueg_true : forall fx libs ms ia na ib nb,
+  units_equivalent_g fx libs ms ia na ib nb = FOk true -> units_equivalent libs ms ia na ib nb = FOk true.
+Proof.
+  intros fx libs ms ia na ib nb H. unfold units_equivalent_g in H. destruct (units_equivalent libs ms ia na ib nb); try exact H.
+  destruct (fx_cycle_guard fx); discriminate.
+Qed.
+
+Lemma meu_some : forall fx libs T home n l t, models_equivalent_units fx libs T home n l = FOk (Some t) ->
   exists u, In u l /\ u_name u = t /\ units_equivalent libs [T; home] 0 t 1 n = FOk true.
 Proof.
-  intros libs T home n l. induction l as [|x r IH]; intros t H; cbn [models_equivalent_units] in H; [discriminate|].
-  destruct (units_equivalent libs [T; home] 0 (u_name x) 1 n) as [b| | |] eqn:E; cbn [fbind] in H; try discriminate.
+  intros fx libs T home n l. induction l as [|x r IH]; intros t H; cbn [models_equivalent_units] in H; [discriminate|].
+  destruct (units_equivalent_g fx libs [T; home] 0 (u_name x) 1 n) as [b| | |] eqn:E; cbn [fbind] in H; try discriminate.
   destruct b.
-  - inversion H; subst t. exists x. split; [left; reflexivity | split; [reflexivity | exact E]].
+  - inversion H; subst t. exists x. split; [left; reflexivity | split; [reflexivity | apply (ueg_true _ _ _ _ _ _ _ E)]].
   - destruct (IH _ H) as [u [Hin Hu]]. exists u. split; [right; exact Hin | exact Hu].
 Qed.
 
-Lemma meu_none : forall libs T home n l, models_equivalent_units libs T home n l = FOk None ->
-  forall u, In u l -> units_equivalent libs [T; home] 0 (u_name u) 1 n = FOk false.
+Lemma meu_none : forall fx libs T home n l, models_equivalent_units fx libs T home n l = FOk None ->
+  forall u, In u l -> units_equivalent_g fx libs [T; home] 0 (u_name u) 1 n = FOk false.
 Proof.
-  intros libs T home n l. induction l as [|x r IH]; intros H u Hin; [destruct Hin|]. cbn [models_equivalent_units] in H.
-  destruct (units_equivalent libs [T; home] 0 (u_name x) 1 n) as [b| | |] eqn:E; cbn [fbind] in H; try discriminate.
+  intros fx libs T home n l. induction l as [|x r IH]; intros H u Hin; [destruct Hin|]. cbn [models_equivalent_units] in H.
+  destruct (units_equivalent_g fx libs [T; home] 0 (u_name x) 1 n) as [b| | |] eqn:E; cbn [fbind] in H; try discriminate.
   destruct b; [discriminate|]. destruct Hin as [Hx|Hin]; [subst; exact E | apply (IH H _ Hin)].
 Qed.
 
@@ -997,7 +1006,7 @@ Lemma transfer_grows : forall fuel fx libs orphan u s s' m c n,
   transfer fuel fx libs orphan u s = FOk (s', m, c, n) -> grows (us_T s) (us_T s').
 Proof.
   induction fuel as [|f IH]; intros fx libs orphan u s s' m c n H; cbn [transfer] in H; [discriminate|].
-  destruct (models_equivalent_units libs (us_T s) (transfer_home orphan u s) (transfer_qname orphan u) (us_T s)) as [tg| | |];
+  destruct (models_equivalent_units fx libs (us_T s) (transfer_home orphan u s) (transfer_qname orphan u) (us_T s)) as [tg| | |];
     cbn [fbind] in H; try discriminate.
   destruct tg as [tname|].
   - destruct (String.eqb tname (u_name u)); inversion H; subst; [apply grows_refl | rewrite us_op_T; apply grows_refl].
@@ -1022,7 +1031,7 @@ Theorem transfer_reuse_or_fresh : forall fuel fx libs orphan u s s' moved change
      ((u_name t = u_name u /\ changed = []) \/ (u_name t <> u_name u /\ changed = [(u_name u, u_name t)])))
   \/
   (moved = true /\
-   (forall t, In t (us_T s) -> units_equivalent libs [us_T s; home] 0 (u_name t) 1 q = FOk false) /\
+   (forall t, In t (us_T s) -> units_equivalent_g fx libs [us_T s; home] 0 (u_name t) 1 q = FOk false) /\
    exists T1 u', grows (us_T s) T1 /\ us_T s' = T1 ++ [u'] /\ u_name u' = fname /\ u_imp u' = u_imp u /\
      ~ In fname (map u_name T1) /\
      ((fname = u_name u /\ changed = []) \/
@@ -1030,14 +1039,14 @@ Theorem transfer_reuse_or_fresh : forall fuel fx libs orphan u s s' moved change
 Proof.
   intros [|f] fx libs orphan u s s' moved changed fname H home q; cbn [transfer] in H; [discriminate|].
   fold home in H. fold q in H.
-  destruct (models_equivalent_units libs (us_T s) home q (us_T s)) as [tg| | |] eqn:Em; cbn [fbind] in H; try discriminate.
+  destruct (models_equivalent_units fx libs (us_T s) home q (us_T s)) as [tg| | |] eqn:Em; cbn [fbind] in H; try discriminate.
   destruct tg as [tname|].
-  - left. destruct (meu_some _ _ _ _ _ _ Em) as [t [Hin [Hn He]]]. subst tname.
+  - left. destruct (meu_some _ _ _ _ _ _ _ Em) as [t [Hin [Hn He]]]. subst tname.
     destruct (String.eqb (u_name t) (u_name u)) eqn:En; inversion H; subst.
     + apply String.eqb_eq in En. repeat split; try reflexivity. exists t. split; [exact Hin|]. split; [exact He|]. left. split; [exact En | reflexivity].
     + apply String.eqb_neq in En. rewrite us_op_T, us_op_S. repeat split; try reflexivity.
       exists t. split; [exact Hin|]. split; [exact He|]. right. split; [exact En | reflexivity].
-  - right. pose proof (meu_none _ _ _ _ _ Em) as Hnone.
+  - right. pose proof (meu_none _ _ _ _ _ _ Em) as Hnone.
     destruct (transfer_kids (transfer f fx libs true) fx (List.length (u_defs u)) 0 u s) as [[u1 s1]| | |] eqn:Ek;
       cbn [fbind] in H; try discriminate.
     destruct (transfer_kids_grows _ fx (fun u s s' m c n => transfer_grows f fx libs true u s s' m c n) _ _ _ _ _ _ Ek) as [Hg [Hn1 Hi1]].
@@ -1263,7 +1272,7 @@ Proof.
     destruct Hc as [[En Ec]|[En Ec]]; rewrite Ec; [rewrite <- En at 1|]; exact He.
   - (* added: redo the computation, the children loop does nothing *)
     destruct fuel as [|f]; cbn [transfer] in H; [discriminate|]. fold home in H. fold q in H.
-    destruct (models_equivalent_units libs (us_T s) home q (us_T s)) as [tg| | |]; cbn [fbind] in H; try discriminate.
+    destruct (models_equivalent_units fx libs (us_T s) home q (us_T s)) as [tg| | |]; cbn [fbind] in H; try discriminate.
     destruct tg as [tname|]; [destruct (String.eqb tname (u_name u)); inversion H; subst; discriminate|].
     rewrite transfer_kids_std in H by (intros c Hc; apply (proj2 Hstd c Hc)). cbn [fbind] in H.
     destruct (free_name (map u_name (us_T s)) (u_name u)) as [newname|] eqn:Ef; [|discriminate].
